@@ -49,6 +49,18 @@ theorem newCache_c9_pin (c_withExpiration : Bool) :
 theorem newCache_c10_pin (c_withEviction : Bool) :
     Gen.CacheMisc.newCache_c10 c_withEviction = c_withEviction := by pin_tac Gen.CacheMisc.newCache_c10
 
+theorem newCache_x0_pin (o_MaximumSize : BitVec 64) :
+    Gen.CacheMisc.newCache_x0 o_MaximumSize = (BitVec.slt (0#64) o_MaximumSize) := by pin_tac Gen.CacheMisc.newCache_x0
+
+theorem newCache_x1_pin (o_ExpiryCalculatornot_nil : Bool) :
+    Gen.CacheMisc.newCache_x1 o_ExpiryCalculatornot_nil = o_ExpiryCalculatornot_nil := by pin_tac Gen.CacheMisc.newCache_x1
+
+theorem newCache_x2_pin (o_RefreshCalculatornot_nil : Bool) :
+    Gen.CacheMisc.newCache_x2 o_RefreshCalculatornot_nil = o_RefreshCalculatornot_nil := by pin_tac Gen.CacheMisc.newCache_x2
+
+theorem newCache_x3_pin (o_Executor__nil : Bool) :
+    Gen.CacheMisc.newCache_x3 o_Executor__nil = o_Executor__nil := by pin_tac Gen.CacheMisc.newCache_x3
+
 theorem newCache_a0_pin (o_MaximumWeight : BitVec 64) :
     Gen.CacheMisc.newCache_a0 o_MaximumWeight = (BitVec.ult (0#64) o_MaximumWeight) := by pin_tac Gen.CacheMisc.newCache_a0
 
@@ -99,6 +111,10 @@ theorem siteParams_pin : Gen.CacheMisc.siteParams = [("newCache_c0", ["withStats
   ("newCache_c8", ["c_withTime"]),
   ("newCache_c9", ["c_withExpiration"]),
   ("newCache_c10", ["c_withEviction"]),
+  ("newCache_x0", ["o_MaximumSize"]),
+  ("newCache_x1", ["o_ExpiryCalculatornot_nil"]),
+  ("newCache_x2", ["o_RefreshCalculatornot_nil"]),
+  ("newCache_x3", ["o_Executor__nil"]),
   ("newCache_a0", ["o_MaximumWeight"]),
   ("newCache_a2", ["o_getMaximum"]),
   ("newCache_a3", ["maximum"]),
@@ -113,11 +129,11 @@ theorem siteParams_pin : Gen.CacheMisc.siteParams = [("newCache_c0", ["withStats
   ("cache_IsWeighted_r0", ["c_isWeighted"]),
   ("cache_IsRecordingStats_r0", ["c_withStats"])] := by rfl
 
-theorem shape_pin : Gen.CacheMisc.shape = [("zeroValue", [0, 0, 0, 1, 0]),
-  ("newCache", [11, 0, 21, 1, 1]),
-  ("cache_EstimatedSize", [0, 0, 0, 1, 0]),
-  ("cache_IsWeighted", [0, 0, 0, 1, 0]),
-  ("cache_IsRecordingStats", [0, 0, 0, 1, 0]),
-  ("cache_Stats", [0, 0, 0, 1, 0])] := by rfl
+theorem shape_pin : Gen.CacheMisc.shape = [("zeroValue", [0, 0, 0, 1, 0, 0]),
+  ("newCache", [11, 0, 21, 1, 1, 4]),
+  ("cache_EstimatedSize", [0, 0, 0, 1, 0, 0]),
+  ("cache_IsWeighted", [0, 0, 0, 1, 0, 0]),
+  ("cache_IsRecordingStats", [0, 0, 0, 1, 0, 0]),
+  ("cache_Stats", [0, 0, 0, 1, 0, 0])] := by rfl
 
 end OtterVerif.Pin.CacheMisc
